@@ -57,7 +57,15 @@ const selectPollInterval = 2 * time.Millisecond
 // the lifecycle — a bare retry-Open returns ErrAlreadyOpen.
 func (c *connection) Open(ctx context.Context, mode OpenMode) error {
 	c.lifeMu.Lock()
-	defer c.lifeMu.Unlock()
+
+	locked := true
+	unlock := func() {
+		if locked {
+			locked = false
+			c.lifeMu.Unlock()
+		}
+	}
+	defer unlock()
 
 	if c.tr == nil {
 		return errors.New("hsms: Open requires a non-nil transport")
@@ -177,6 +185,13 @@ func (c *connection) Open(ctx context.Context, mode OpenMode) error {
 	}
 
 	if mode == OpenWaitSelected {
+		// Release lifeMu BEFORE waiting. The wait can last until the caller's ctx ends (a passive
+		// endpoint nobody connects to, a peer that never answers Select), and a concurrent Close must
+		// not queue behind it for that long: Close's bound is the close timeout, not the Open caller's
+		// patience. Everything Open publishes is in place; a Close that tears e down wakes this wait
+		// through e.done (ErrConnClosed).
+		unlock()
+
 		return c.waitSelected(ctx, e, s)
 	}
 
